@@ -38,7 +38,7 @@ def one(mid):
         # neighbouring properties named in meta["also"] - a change to shared code may break a neighbour's property instead
         for q in [pid] + [x for x in meta.get("also", []) if x != pid]:
             t0 = time.time()
-            p = subprocess.run([os.path.join(ROOT, "vcheck"), q, "--tier", "quick"], env=env, cwd=ROOT, stdout=subprocess.PIPE, stderr=subprocess.STDOUT, text=True, timeout=3600)
+            p = subprocess.run([os.path.join(ROOT, "vcheck"), q, "--tier", meta.get("tier", "quick")], env=env, cwd=ROOT, stdout=subprocess.PIPE, stderr=subprocess.STDOUT, text=True, timeout=3600)
             lines = [l for l in p.stdout.split("\n") if l.startswith(("VIOLATION", "OK ", "ERROR", "KNOWN"))]
             what = ""
             for l in lines:
